@@ -31,6 +31,10 @@
 (*   multi_role_action(caller)     #[has_any_role(caller, [minter,burner])]*)
 (*   multi_role_auth_action(caller)#[only_any_role(caller,[minter,burner])]*)
 (*   burn(caller)                  #[has_role(from, "burner")]             *)
+(*   stack_any_admin(caller)       #[only_any_role(..)] #[only_admin]      *)
+(*   stack_role_admin(caller)      #[only_role(caller,"minter")] #[only_admin] *)
+(*   stack_admin_any(caller)       #[only_admin] #[only_any_role(..)]      *)
+(*        (two guards on one entry point: both must hold)                  *)
 (* `auth` is the set of accounts whose authorization of exactly this       *)
 (* invocation is attached to the call.                                     *)
 (***************************************************************************)
@@ -87,11 +91,14 @@ Authority(g, x, r) == IsAdmin(g, x) \/ (RAdm(g, r) # NoOne /\ Holds_(g, x, RAdm(
 GateRoles(k) ==
   CASE k = "mint" -> {"minter"}
     [] k = "burn" -> {"burner"}
-    [] k \in {"multi_role_action", "multi_role_auth_action"} -> {"minter", "burner"}
+    [] k \in {"multi_role_action", "multi_role_auth_action", "stack_any_admin", "stack_admin_any"} -> {"minter", "burner"}
+    [] k = "stack_role_admin" -> {"minter"}
     [] OTHER -> {}
-RoleGated == {"mint", "burn", "multi_role_action", "multi_role_auth_action"}
+\* entry points that carry a role guard AND the admin guard
+StackGated == {"stack_any_admin", "stack_role_admin", "stack_admin_any"}
+RoleGated == {"mint", "burn", "multi_role_action", "multi_role_auth_action"} \cup StackGated
 \* entry points that demand the contract admin
-AdminGated == {"admin_fn", "set_role_admin", "transfer", "renounce_admin"}
+AdminGated == {"admin_fn", "set_role_admin", "transfer", "renounce_admin"} \cup StackGated
 
 (* the queryable membership ---------------------------------------------------*)
 \* count, member-by-index, has_role (as a yes/no answer), the list of existing roles and the
@@ -146,6 +153,7 @@ Cons(m, g, ev) ==
     [] m = "C06_gate"           -> IF o.op = "admin_fn" THEN g.admin # NoOne /\ g.admin \in auth
                                    ELSE /\ o.caller \in auth
                                         /\ \E r \in GateRoles(o.op) : Holds_(g, o.caller, r)
+                                        /\ o.op \in StackGated => (g.admin # NoOne /\ g.admin \in auth)
   \* after the admin is renounced nobody passes an admin check and no admin reappears
     [] m = "C06_admin_gone"     -> (o.op \in AdminGated => ~ok) /\ ev.obs.admin = NoOne
     [] m = "C06_enum"           -> EnumOk(GNext(g, ev), ev.obs)
